@@ -410,6 +410,11 @@ impl<F: MatchFunc> Aligner<F> {
         }
 
         let (m, n) = (x.len(), y.len());
+        if m == 0 || n == 0 {
+            // The code below treats row m and column n specially and relies on them being
+            // different from row 0 and column 0.
+            return self.degenerate_alignment(m, n);
+        }
         self.traceback.init(m, n);
 
         for k in 0..2 {
@@ -850,6 +855,57 @@ impl<F: MatchFunc> Aligner<F> {
         operations.reverse();
         Alignment {
             score: self.S[n % 2][m],
+            ystart,
+            xstart,
+            yend,
+            xend,
+            ylen: n,
+            xlen: m,
+            operations,
+            mode: AlignmentMode::Custom,
+        }
+    }
+
+    /// Alignment when at least one of the two sequences is empty. The other sequence is either
+    /// consumed by a single gap or clipped as a whole: clipping a part of it and gapping the rest
+    /// cannot score higher than clipping all of it, because gap scores are never positive.
+    fn degenerate_alignment(&self, m: usize, n: usize) -> Alignment {
+        debug_assert!(m == 0 || n == 0);
+        let sc = &self.scoring;
+        let mut operations = Vec::new();
+        let (mut xstart, mut xend, mut ystart, mut yend) = (0, m, 0, n);
+        let mut score = 0;
+        if m > 0 {
+            let gap = sc.gap_open + sc.gap_extend * (m as i32);
+            if gap >= sc.xclip_prefix && gap >= sc.xclip_suffix {
+                score = gap;
+                operations.resize(m, AlignmentOperation::Ins);
+            } else if sc.xclip_prefix >= sc.xclip_suffix {
+                score = sc.xclip_prefix;
+                operations.push(AlignmentOperation::Xclip(m));
+                xstart = m;
+            } else {
+                score = sc.xclip_suffix;
+                operations.push(AlignmentOperation::Xclip(m));
+                xend = 0;
+            }
+        } else if n > 0 {
+            let gap = sc.gap_open + sc.gap_extend * (n as i32);
+            if gap >= sc.yclip_prefix && gap >= sc.yclip_suffix {
+                score = gap;
+                operations.resize(n, AlignmentOperation::Del);
+            } else if sc.yclip_prefix >= sc.yclip_suffix {
+                score = sc.yclip_prefix;
+                operations.push(AlignmentOperation::Yclip(n));
+                ystart = n;
+            } else {
+                score = sc.yclip_suffix;
+                operations.push(AlignmentOperation::Yclip(n));
+                yend = 0;
+            }
+        }
+        Alignment {
+            score,
             ystart,
             xstart,
             yend,
